@@ -500,6 +500,7 @@ def run(repo: Repo, ctx) -> None:
     _r6(repo, ctx, pm)
     _r7(repo, ctx, pm)
     _r8(repo, ctx, pm)
+    _r9(repo, ctx, pm)
 
 
 def _r7(repo: Repo, ctx, pm) -> None:
@@ -654,3 +655,119 @@ def _r6(repo: Repo, ctx, pm) -> None:
 class _Body:
     def __init__(self, body):
         self.body = body
+
+
+def _r9(repo: Repo, ctx, pm) -> None:
+    """C16.R9 hand-off decisions under named assumptions (three-valued path
+    facts, sa/absint.py; nothing is evaluated).
+
+    A request on a database without a connection is served only through a
+    hand-off: a release / tick decides to take a connection away from a block
+    (`_should_free_conn`), and picks the block to give it to
+    (`_find_most_starving_block`).  Each fact below is a situation in which
+    refusing the hand-off, or handing over to nobody, strands a live request
+    for ever; the decision must come out the stated way whatever the other,
+    unassumed quantities are."""
+    from ..absint import Facts, closed_edges, open_nodes, open_returns
+    ctx.floor('C16.R9', 4)
+    sf = pm.repo.find_method(pm.pool.qualname, '_should_free_conn')
+    if sf is None:
+        raise AnalysisError('C16.R9: _should_free_conn not found')
+    ctx.saw(sf)
+    g = CFG(sf.node)
+    fb = sf.params()[1] if len(sf.params()) > 1 else 'from_block'
+    cases = [
+        ('over-quota-when-not-starving',
+         {'len(self._blocks) <= 1': False, 'self._is_starving': False,
+          f'{fb}.count_conns() <= {fb}.quota': False},
+         'a block that holds more connections than its quota refuses to '
+         'give one up because of something else (its own queue, ...): a '
+         'database with no connection at all waits for as long as that '
+         'condition lasts'),
+        ('idle-block-when-starving',
+         {'len(self._blocks) <= 1': False, 'self._is_starving': True,
+          f'{fb}.count_waiters()': False},
+         'in starving mode a block nobody is waiting on refuses to give up '
+         'a connection: the blocks that starve are never served'),
+    ]
+    for name, facts, why in cases:
+        fx = Facts(facts, fn_node=sf.node)
+        rets = open_returns(g, fx)
+        vals = sorted({norm(r.value) if r.value is not None else 'None'
+                       for r in rets})
+        used_all = all(k in fx.used for k in facts
+                       if k != 'len(self._blocks) <= 1')
+        if not rets or not used_all:
+            # the function no longer consults the assumed quantities
+            if not any(k in norm(sf.node) for k in ('_is_starving',)):
+                raise AnalysisError(
+                    f'C16.R9: _should_free_conn no longer tests the '
+                    f'quantities of case {name}: cannot decide')
+        ctx.ob('C16.R9', f'_should_free_conn:{name}', vals == ['True'],
+               f'under {facts} _should_free_conn can return {vals}: {why}',
+               sf.loc, sample=f'{name}: returns True')
+    # the steal loop of the tick that enters starving mode
+    tick = pm.repo.find_method(pm.pool.qualname, '_tick')
+    if tick is None:
+        raise AnalysisError('C16.R9: _tick not found')
+    ctx.saw(tick)
+    loops = [w for w in ast.walk(tick.node) if isinstance(w, ast.While)
+             and any(isinstance(c, ast.Call) and isinstance(
+                 c.func, ast.Attribute) and c.func.attr == 'try_steal'
+                 for c in ast.walk(w))]
+    if not loops:
+        raise AnalysisError('C16.R9: steal loop of _tick not found')
+    for w in loops:
+        blk = None
+        for c in ast.walk(w):
+            if isinstance(c, ast.Call) and isinstance(
+                    c.func, ast.Attribute) and c.func.attr == 'try_steal':
+                blk = norm(c.func.value)
+        fx = Facts({f'self._should_free_conn({blk})': True},
+                   fn_node=tick.node)
+        v = fx.eval(w.test)
+        ctx.ob('C16.R9', '_tick:steal-whenever-free-allowed', v is True,
+               f'on the tick that enters starving mode the steal loop runs '
+               f'under `{norm(w.test)[:80]}`: a block that '
+               f'_should_free_conn would let go can still be skipped, and '
+               f'since no release is coming (everything is idle) and '
+               f'rebalancing is off while starving, the waitlisted '
+               f'databases are blocked for ever',
+               f'{tick.module.rel()}:{w.lineno}',
+               sample=f'while _should_free_conn({blk})')
+    # the waitlist scan never elects a block nobody waits on
+    fm = pm.repo.find_method(pm.pool.qualname, '_find_most_starving_block')
+    if fm is None:
+        raise AnalysisError('C16.R9: _find_most_starving_block not found')
+    ctx.saw(fm)
+    g = CFG(fm.node)
+    wl = [w for w in ast.walk(fm.node) if isinstance(w, ast.While)
+          and '_new_blocks_waitlist' in norm(w.test)]
+    if len(wl) != 1:
+        raise AnalysisError('C16.R9: waitlist scan not found')
+    pops = [a for a in ast.walk(wl[0]) if isinstance(a, ast.Assign)
+            and 'popitem' in norm(a.value)]
+    if not pops:
+        raise AnalysisError('C16.R9: waitlist pop not found')
+    t0 = pops[0].targets[0]
+    bv = norm(t0.elts[0] if isinstance(t0, ast.Tuple) else t0)
+    elect = [n.id for n in g.nodes if n.kind == 'stmt' and isinstance(
+        n.ast, ast.Assign) and norm(n.ast.value) == bv and any(
+        n.ast is x for x in ast.walk(wl[0]))]
+    if not elect:
+        raise AnalysisError('C16.R9: election in the waitlist scan not found')
+    for name, facts, why in (
+            ('no-waiter', {f'{bv}.count_waiters()': False},
+             'a waitlist entry whose request has gone away (cancelled, '
+             'aborted) receives the released connection; in starving mode '
+             'it then sits idle in that block and every live request queued '
+             'behind the stale entry hangs'),
+            ('already-connected', {f'{bv}.count_conns()': True},
+             'a block that already has a connection is elected again and '
+             'the one that has none keeps waiting')):
+        fx = Facts(facts, fn_node=fm.node)
+        on = open_nodes(g, fx)
+        ctx.ob('C16.R9', f'_find_most_starving_block:waitlist-skips-{name}',
+               not (set(elect) & on),
+               f'under {facts} the waitlist scan still elects the block: '
+               f'{why}', fm.loc, sample=f'{name}: skipped')
